@@ -11,6 +11,7 @@ import (
 	"time"
 
 	"github.com/uhppoted/uhppote-core/types"
+	"github.com/uhppoted/uhppote-core/uhppote"
 	"pgregory.net/rapid"
 
 	"verif/harness/api"
@@ -47,6 +48,12 @@ type history struct {
 	// serial numbers the events carry) and their configured time zones
 	Debug   bool             `json:"debug,omitempty"`
 	Devices []hook.DeviceCfg `json:"devices,omitempty"`
+	// OneClient: every start/stop cycle runs on the SAME client instance (nothing may be carried from one Listen call to the
+	// next); otherwise each cycle builds a new client
+	OneClient bool `json:"one_client,omitempty"`
+	// Calls: between the batches of a cycle the client also makes requests (GetDevices / GetTime time out on a silent
+	// broadcast address) - listening and calling share the client
+	Calls bool `json:"calls,omitempty"`
 }
 
 // outcome of one datagram according to the protocol model
@@ -165,8 +172,16 @@ func run(h history) *rp.Fail {
 	dest := net.UDPAddrFromAddrPort(listen)
 	send := func(d dgram) { senders[d.Sender%3].WriteToUDP(d.Data, dest) }
 
+	var shared uhppote.IUHPPOTE
 	for ci, cy := range h.Cycles {
-		u := hook.Real(hook.ClientCfg{HasListen: true, ListenIP: [4]byte{127, 0, 0, 1}, ListenPort: port, TimeoutMs: 500, Debug: h.Debug, Devices: h.Devices})
+		u := shared
+		if u == nil {
+			u = hook.Real(hook.ClientCfg{HasListen: true, ListenIP: [4]byte{127, 0, 0, 1}, ListenPort: port, TimeoutMs: 30, Debug: h.Debug, Devices: h.Devices,
+				BindIP: [4]byte{127, 0, 0, 1}, HasBroadcast: true, BroadcastIP: [4]byte{127, 0, 6, 1}, BroadcastPort: 9})
+			if h.OneClient {
+				shared = u
+			}
+		}
 		rec := &recorder{}
 		rec.onConnect = func() { send(cy.Hello) }
 		q := make(chan os.Signal)
@@ -211,7 +226,11 @@ func run(h history) *rp.Fail {
 			close(q)
 			return f
 		}
-		for _, b := range cy.Batches {
+		for bi, b := range cy.Batches {
+			if h.Calls && bi%2 == 1 {
+				u.GetDevices()
+				u.GetTime(405419896)
+			}
 			for _, d := range b {
 				account(d)
 				send(d)
@@ -326,6 +345,12 @@ func check(h history) *rp.Fail {
 	}
 	class := fmt.Sprintf("history/%d-cycles", len(h.Cycles))
 	ev.Case(class, nt, fmt.Sprintf("%v", h))
+	if h.OneClient && len(h.Cycles) > 1 {
+		ev.Class("history/start-stop-cycles-on-one-client", 1)
+	}
+	if h.Calls {
+		ev.Class("history/requests-while-listening", 1)
+	}
 	ev.Class("datagrams-sent", int64(total))
 	if ev.WantSample(class) {
 		var kinds []string
@@ -381,6 +406,8 @@ func genDatagram(t *rapid.T, pool []uint32) dgram {
 func genHistory(t *rapid.T) history {
 	var h history
 	h.Debug = gen.Debug(t, "debug")
+	h.OneClient = rapid.Bool().Draw(t, "one.client")
+	h.Calls = rapid.IntRange(0, 3).Draw(t, "calls") == 0
 	var pool []uint32
 	for i := rapid.IntRange(0, 3).Draw(t, "configured"); i > 0; i-- {
 		s := gen.Serial(t)
